@@ -119,13 +119,13 @@ def stage_detect(sc: Dict[str, Any]) -> Dict[str, str]:
     from antismash.common.hmm_rule_parser.structures import DynamicHit, DynamicProfile
     from sim.world.records import build_record
     record = build_record(dict(sc["record"], protos=[], subs=[], create=False))
-    hits = sc["hits"]
+    active = {"hits": sc["hits"]}
 
     def make_profile(name: str) -> DynamicProfile:
         def find_hits(rec: Any, _hmmer_hits: Any) -> Dict[str, List[DynamicHit]]:
             present = {cds.get_name() for cds in rec.get_cds_features()}
             found: Dict[str, List[DynamicHit]] = {}
-            for hit in hits:
+            for hit in active["hits"]:
                 if hit["profile"] == name and hit["cds"] in present:
                     found.setdefault(hit["cds"], []).append(DynamicHit(hit["cds"], name, bitscore=float(hit["bitscore"])))
             return found
@@ -185,10 +185,31 @@ def stage_pipeline(sc: Dict[str, Any], salt: int) -> Dict[str, str]:
         P.cleanup(work)
 
 
+_LAYOUT: list = []
+_SALT = [0]
+
+
+def _perturb_layout(salt: int) -> None:
+    """ "Any memory layout": the schedule also decides the state of the allocator the analysis starts from.
+        Small objects of the sizes the analysis allocates most (lists, tuples, dicts, short strings) are created
+        and part of them freed again, so the addresses handed out next - and which freed addresses get reused -
+        differ between schedules while staying a pure function of the salt. """
+    _LAYOUT.clear()
+    _SALT[0] = salt
+    if not salt:
+        return
+    count = 500 + salt % 3571
+    junk = [([], (i, salt), {}, str(i) * (1 + i % 5)) for i in range(count)]
+    step = 2 + salt % 3
+    _LAYOUT.append([item for i, item in enumerate(junk) if i % step])
+    del junk
+
+
 def process(scenario: Dict[str, Any], salt: int) -> Dict[str, str]:
     """ stage name -> canonical text """
     from sim.world import idhash
     idhash.install(int(salt))
+    _perturb_layout(int(salt))
     kind = scenario["kind"]
     if kind == "refine":
         return stage_refine(scenario)
